@@ -6,6 +6,11 @@
 //! `Poll::Pending` injections are scripted by the operation; the futures are polled by hand in a
 //! scripted order, so that a case replays exactly.
 //!
+//! `report` builds a real `ProtocolSet` whose protocol receivers are owned by the adapter, calls the
+//! real `ProtocolSet::report_substream_open` with the negotiated name and a `Substream` over the
+//! guarded in-memory pipe, and prints which protocol's channel got the `SubstreamOpened` event and
+//! with which `protocol` / `fallback` fields.
+//!
 //! Names, payloads and wire bytes are hex strings (`-` is the empty string), lists are comma
 //! separated.
 
@@ -424,6 +429,126 @@ pub struct MssBox {
     dialer: Option<WebRtcDialerState>,
 }
 
+/// `report protos=M;F;F,M,M;F neg=N`: install the protocols `M` with fallback names `F`, report an
+/// inbound substream negotiated as `N`.
+fn report(protos: &str, neg: &str) -> String {
+    use crate::{
+        codec::ProtocolCodec,
+        error::{NegotiationError as CrateNegErr, SubstreamError},
+        protocol::{InnerTransportEvent, ProtocolSet, SubstreamKeepAlive},
+        substream::Substream,
+        transport::manager::ProtocolContext,
+        types::{ConnectionId, SubstreamId},
+        verif::io::pipe,
+    };
+    use std::collections::HashMap;
+    use tokio::sync::mpsc::channel;
+
+    let name = |h: &str| String::from_utf8(unhx(h)).ok().map(ProtocolName::from);
+    let mut installed: Vec<(ProtocolName, Vec<ProtocolName>)> = Vec::new();
+    if protos != "-" && !protos.is_empty() {
+        for entry in protos.split(',') {
+            let mut it = entry.split(';');
+            let Some(main) = it.next().and_then(name) else {
+                return "bad-op".into();
+            };
+            let mut fbs = Vec::new();
+            for f in it {
+                let Some(f) = name(f) else {
+                    return "bad-op".into();
+                };
+                fbs.push(f);
+            }
+            installed.push((main, fbs));
+        }
+    }
+    let Some(neg) = name(neg) else {
+        return "bad-op".into();
+    };
+    // the installed protocols are the keys of a map, and a fallback name that belongs to two
+    // protocols would be resolved by hash-map iteration order: both are outside the operation
+    for (i, (main, fbs)) in installed.iter().enumerate() {
+        for (j, (other, ofbs)) in installed.iter().enumerate() {
+            if i < j && (main == other || fbs.iter().any(|f| ofbs.contains(f))) {
+                return "bad-op".into();
+            }
+        }
+    }
+
+    let (mgr_tx, _mgr_rx) = channel(4);
+    let mut rxs = Vec::new();
+    let mut protocols = HashMap::new();
+    for (main, fbs) in &installed {
+        let (tx, rx) = channel(4);
+        protocols.insert(
+            main.clone(),
+            ProtocolContext {
+                codec: ProtocolCodec::Identity(32),
+                tx,
+                fallback_names: fbs.clone(),
+                keep_alive: SubstreamKeepAlive::Yes,
+            },
+        );
+        rxs.push(rx);
+    }
+    let mut set =
+        ProtocolSet::new(ConnectionId::from(3usize), mgr_tx, Default::default(), protocols);
+    // what the connection offers to the remote dialer: main and fallback names
+    let n = set.protocols_with_keep_alives().len();
+    let Some(permit) = set.try_get_permit() else {
+        return "err:no-permit".into();
+    };
+    let (end, _ctl) = pipe(64);
+    let substream = Substream::new_verif(
+        crate::verif::peer(1),
+        SubstreamId::from(1usize),
+        Box::new(end),
+        ProtocolCodec::Identity(32),
+    );
+    let result = {
+        let fut = set.report_substream_open(
+            crate::verif::peer(1),
+            neg,
+            crate::protocol::Direction::Inbound,
+            substream,
+            permit,
+        );
+        let mut fut = Box::pin(fut);
+        let waker = noop_waker();
+        let mut cx = Context::from_waker(&waker);
+        match fut.as_mut().poll(&mut cx) {
+            Poll::Ready(r) => r,
+            Poll::Pending => return format!("blocked n={n}"),
+        }
+    };
+    match result {
+        Ok(()) => {
+            let mut got = Vec::new();
+            for (i, rx) in rxs.iter_mut().enumerate() {
+                while let Ok(event) = rx.try_recv() {
+                    match event {
+                        InnerTransportEvent::SubstreamOpened { protocol, fallback, .. } => got.push(format!(
+                            "to={i} main={} fb={}",
+                            hx(protocol.as_bytes()),
+                            fallback.map_or("none".to_string(), |f| hx(f.as_bytes()))
+                        )),
+                        _ => got.push(format!("to={i} other-event")),
+                    }
+                }
+            }
+            if got.len() == 1 {
+                format!("ok {} n={n}", got[0])
+            } else {
+                format!("ok events={} n={n}", got.len())
+            }
+        }
+        Err(SubstreamError::NegotiationError(CrateNegErr::MultistreamSelectError(
+            NegotiationError::ProtocolError(ProtocolError::ProtocolNotSupported),
+        ))) => format!("err:not-supported n={n}"),
+        Err(e) => format!("err:{e:?} n={n}").replace(' ', "_").replace("_n=", " n="),
+    }
+}
+
 impl MssBox {
     pub fn new() -> Self {
         Self { dialer: None }
@@ -612,6 +737,10 @@ impl VerifBox for MssBox {
                 };
                 let split = a.get("split").map(|s| s.parse().expect("split")).unwrap_or(0);
                 Self::wpair(main.clone(), fb, sup, split)
+            }
+            ["report", rest @ ..] => {
+                let a = kv(rest);
+                report(a.get("protos").copied().unwrap_or("-"), a.get("neg").copied().unwrap_or("-"))
             }
             ["negotiate", rest @ ..] => {
                 let a = kv(rest);
